@@ -67,6 +67,9 @@ type Spec struct {
 	outside       bool           // the directory was modified from outside (fault ops)
 	loaded        bool           // the handle has certainly loaded the schema (some call since the last reopen)
 	memStale      bool           // schema.json was edited from outside since the handle loaded it
+	prev2Op       string
+	ixClosed      bool
+	ixWant        []string // index dump taken right before the handle was closed or abandoned: the next handle must show the same entries in the same order
 }
 
 // failedWrite: a write call that returned an error, with the sweep taken just before it
@@ -108,6 +111,10 @@ func (s *Spec) fail(e *Exec, prop, format string, a ...interface{}) {
 	if s.reopened && (prop == "C01" || prop == "C02" || prop == "C03" || prop == "C13" || prop == "C16") {
 		extra["C04"] = true
 	}
+	if s.reopened && s.prop == "C18" && (prop == "C01" || prop == "C02" || prop == "C03" || prop == "C13") {
+		// ... and what was stored under the names and the format of the previous handle is not read back: C18
+		extra["C18"] = true
+	}
 	if (s.prop == "C15" || s.prop == "C16") && (prop == "C01" || prop == "C02" || prop == "C03" || prop == "C07") {
 		extra[s.prop] = true
 	}
@@ -125,7 +132,7 @@ func (s *Spec) fail(e *Exec, prop, format string, a ...interface{}) {
 		extra["C17"] = true
 	}
 	delete(extra, prop)
-	for _, x := range []string{"C04", "C06", "C10", "C15", "C16", "C17"} {
+	for _, x := range []string{"C04", "C06", "C10", "C15", "C16", "C17", "C18"} {
 		if extra[x] {
 			fmt.Fprintf(e.w, "! %s [%s] %s\n", x, prop, msg)
 		}
@@ -917,7 +924,39 @@ func (s *Spec) stateOracles(e *Exec, t, r []string) {
 	default:
 		s.repairedOK, s.afterRepair, s.wantSweep = 0, "", ""
 	}
-	defer func() { s.prevOp = t[0] }()
+	defer func() { s.prev2Op, s.prevOp = s.prevOp, t[0] }()
+	// SAME ORDERING after a restart: dump, (close,) reopen, dump with nothing in between: every field index lists the
+	// same entries in the same order (ties included), the id table is the same
+	ixOf := func(ls []string) []string {
+		var out []string
+		for _, l := range ls {
+			if strings.HasPrefix(l, "s ix ") || strings.HasPrefix(l, "s ids ") {
+				out = append(out, l)
+			}
+		}
+		return out
+	}
+	switch t[0] {
+	case "reopen":
+		s.ixWant = nil
+		if r[0] == "ok" && s.lastDump != nil && !s.outside && !s.off && !s.damaged && s.crashCtx == "" &&
+			(s.prevOp == "dump" || (s.prevOp == "close" && s.prev2Op == "dump")) && (s.prevOp == "close" || !e.cfg.Async) {
+			s.ixWant = ixOf(s.lastDump)
+			s.ixClosed = s.prevOp == "close"
+		}
+	case "dump":
+		if s.ixWant != nil && r[0] == "ok" {
+			got := ixOf(e.obs)
+			if strings.Join(got, "\n") != strings.Join(s.ixWant, "\n") && !s.mute {
+				s.fail(e, "C04", "same ordering: the index a new handle loads differs from the index the previous handle held when it was %s: before [%.300s] after [%.300s]",
+					map[bool]string{true: "closed", false: "abandoned (synchronous mode)"}[s.ixClosed], strings.Join(s.ixWant, " | "), strings.Join(got, " | "))
+			}
+		}
+		s.ixWant = nil
+	case "close", "count", "all":
+	default:
+		s.ixWant = nil
+	}
 	switch t[0] {
 	case "all":
 		s.lastAll = nil
